@@ -6,6 +6,7 @@ import RsslVerif.Lemmas.SpecInert
 import RsslVerif.Lemmas.MacroHang
 import RsslVerif.Lemmas.MacroTameSpec
 import RsslVerif.Lemmas.MacroTameRun
+import RsslVerif.Lemmas.MacroPaste
 /-!
 # C12 — macro expansion and inclusion equal reference textual substitution
 
@@ -18,7 +19,7 @@ open RsslVerif.Gen.MacroTables RsslVerif.Model.Macro RsslVerif.Model.Include Rss
 open RsslVerif.Lemmas.MacroScope RsslVerif.Lemmas.Include RsslVerif.Lemmas.MacroTerm RsslVerif.Lemmas.MacroSubst
 open RsslVerif.Lemmas.MacroApi RsslVerif.Lemmas.SpecInert RsslVerif.Lemmas.MacroHang
 open RsslVerif.Model.MacroTame RsslVerif.Lemmas.MacroTame RsslVerif.Lemmas.MacroTameSpec RsslVerif.Lemmas.MacroTameRun
-open RsslVerif.Lemmas.SpecExpand
+open RsslVerif.Lemmas.SpecExpand RsslVerif.Lemmas.MacroPaste
 
 /-- Tie to the source: the shapes of `preprocess_command`, `apply_single_macro`, `preprocess_initial_file`,
 `Token::is_whitespace`, `compile()` and of every `MacroSearchPosition` the model was written against. -/
@@ -568,6 +569,62 @@ theorem trailing_function_name_is_invoked (env : List Entry) (P R0 blanks rest :
       ⟨P.length + (R0 ++ ⟨.id g, b⟩ :: blanks).length, P.length, lastFn⟩ env =
       .ok (.user mj (P.length + R0.length)) :=
   early_scan_finds_trailing_name env P R0 blanks rest g b mj e lastFn hsel hfn hlast hnc hblank hparen
+
+
+/-! ## `##` -/
+
+/-- **paste_is_single_token.** `##` pastes its neighbours into one token: in a text whose other tokens start no
+operation, the two tokens next to the operator (white space -- blanks, comments, line ends -- on either side of it
+aside) are replaced, together with the operator and that white space, by one token, and that token is spelled like
+the two operands joined (`spell`: what `unlex` writes).  Which joined spellings are one token is decided by
+`pasteTokens`; `paste_matches_lexer` compares that with the lexer. -/
+theorem paste_is_single_token (env : List Entry) (before w1 w2 after : List PTok) (lt c rt m : PTok)
+    (hc : c.tok = .concat) (hw1 : ∀ t ∈ w1, t.tok.isWhitespace = true) (hw2 : ∀ t ∈ w2, t.tok.isWhitespace = true)
+    (hlt : lt.tok.isWhitespace = false) (hrt : rt.tok.isWhitespace = false)
+    (hpre : Inert env (before ++ lt :: w1)) (hpaste : pasteTokens lt rt = .ok m)
+    (hpost : Inert env (m :: after)) :
+    applyLoop env (before ++ lt :: (w1 ++ c :: (w2 ++ rt :: after))) SearchPos.start = .ok (before ++ m :: after) ∧
+    spell m.tok = spell lt.tok ++ spell rt.tok :=
+  ⟨paste_step env before w1 w2 after lt c rt m hc hw1 hw2 hlt hrt hpre hpaste hpost,
+   (pasteTokens_spelling lt rt m hpaste).1⟩
+
+/-- non-vacuity: `P ## 1 ;` (as left by the substitution of `#define CAT(X,Y) X ## Y` in `CAT(P,1);`) gives `P1 ;` -/
+example : applyLoop [] ([] ++ ⟨.id "P", true⟩ :: ([⟨.ws, true⟩] ++ ⟨.concat, true⟩ :: ([⟨.ws, true⟩] ++
+      ⟨.int "1", true⟩ :: [⟨.punct ";", true⟩]))) SearchPos.start = .ok ([] ++ ⟨.id "P1", true⟩ :: [⟨.punct ";", true⟩]) ∧
+    spell (Tok.id "P1") = spell (Tok.id "P") ++ spell (Tok.int "1") := by
+  apply paste_is_single_token [] [] _ _ _ ⟨.id "P", true⟩ ⟨.concat, true⟩ ⟨.int "1", true⟩ ⟨.id "P1", true⟩
+  · rfl
+  · intro t ht; simp at ht; subst ht; rfl
+  · intro t ht; simp at ht; subst ht; rfl
+  · rfl
+  · rfl
+  · intro t ht; simp at ht; rcases ht with rfl | rfl <;> simp [InertTok]
+  · rfl
+  · intro t ht; simp at ht; rcases ht with rfl | rfl <;> simp [InertTok]
+
+/-- **paste_matches_lexer.** `pasteTokens` against the lexer (C10's model `Model.Lexer`, itself tied to lexer.rs):
+(1) the model's keyword list is the union of the lexer's keyword table and its reserved words; (2) for an identifier
+pasted with an identifier or a number whose joined spelling is identifier-shaped and no keyword, `pasteTokens` yields
+the identifier of the joined spelling, and the lexer reads the joined text as exactly that identifier followed by the
+line end it appends (the `[token, Endline]` shape `apply_single_macro` accepts) -- for every such pair of spellings;
+(3) for the one-character operators of the model, `pasteTokens` merges a pair exactly when the lexer reads the two
+characters as one token (all 49 pairs).  Numbers pasted with numbers are compared with the real lexer by the
+correspondence run only. -/
+theorem paste_matches_lexer :
+    ((∀ s ∈ keywords, s ∈ RsslVerif.Gen.LexTables.keywords.map (·.1) ∨ s ∈ RsslVerif.Gen.LexTables.reservedWords) ∧
+      (∀ s ∈ RsslVerif.Gen.LexTables.keywords.map (·.1), s ∈ keywords) ∧
+      (∀ s ∈ RsslVerif.Gen.LexTables.reservedWords, s ∈ keywords)) ∧
+    (∀ (a b : String) (k : String → Tok), (k = Tok.id ∨ k = Tok.int) →
+      IdentText (RsslVerif.Model.Lexer.str (a ++ b)) → keywords.contains (a ++ b) = false →
+      pasteTokens ⟨.id a, true⟩ ⟨k b, true⟩ = .ok ⟨.id (a ++ b), true⟩ ∧
+      RsslVerif.Model.Lexer.readToEnd (RsslVerif.Model.Lexer.str (a ++ b)) =
+        .ok [⟨.id (RsslVerif.Model.Lexer.str (a ++ b)), 0, (RsslVerif.Model.Lexer.str (a ++ b)).length⟩,
+             ⟨.simple .Endline, (RsslVerif.Model.Lexer.str (a ++ b)).length,
+               (RsslVerif.Model.Lexer.str (a ++ b)).length⟩]) ∧
+    (∀ a ∈ modelOperators, ∀ b ∈ modelOperators,
+      punctMerges.contains (a, b) = lexesToOneToken (RsslVerif.Model.Lexer.str (a ++ b))) :=
+  ⟨keywords_agree, fun a b k hk hs hkw => paste_identifiers_matches_lexer a b k hk hs hkw,
+   paste_operators_match_lexer⟩
 
 /-! ## Inclusion -/
 
